@@ -212,6 +212,16 @@ func programs() []*Program {
 			return c
 		}})
 
+	// a message type used as map value, list element and plain field next to same-named siblings:
+	// base of the C11 variants that address fields through a map
+	add(&Program{Name: "P-mapopt", Quick: true, Bounds: map[string][2]int{"refresh": {2, 1}, "echo": {2, 1}},
+		File: func() *FileSpec {
+			lb := msg("Label", nil, fld("Value", TString), fld("Name", TString), fld("Weight", TInt64))
+			r := msg("R", nil, fld("Name", TString), fld("Value", TString), mfld("Primary", "Label"), mfld("List", "Label").rep(), mapfld("Labels", mfld("v", "Label")))
+			return &FileSpec{Name: "p.proto", Msgs: []*M{lb, r}}
+		},
+		Cfg: func() *Config { return baseConfig("R") }})
+
 	add(&Program{Name: "P-flags", Quick: true,
 		File: func() *FileSpec {
 			sub := msg("FlSub", nil, fld("X", TString).doc(" X of the sub message\n"), fld("Y", TString)).doc(" FlSub is nested\n")
